@@ -62,3 +62,45 @@ Theorem C16_F20_known_class_witness :
   exists se, try_from RichProofs.f20_image = Ok se /\ length (records RichProofs.f20_image se) = 1%nat /\ length RichProofs.f20_recs = 4%nat.
 Proof. exact RichProofs.f20_known_class_witness. Qed.
 Print Assumptions C16_F20_known_class_witness.
+
+(* ---- leaf functions regenerated from the source on every run (tools/gen_leaf.py -> gen/Leaf.v): agreement with the hand-written model ---- *)
+(* src/rich_structure.rs RichRecord::decode / encode, the record step of the checksum and the length arithmetic of
+   RichStructure::encode, regenerated from the source on every run, are the functions of Model/Rich.v / Model/Checked.v.
+   Model/Rich.v encode keeps the u32 length of the code as it stood: it is the source's value below 2^29 - 6 records
+   and differs from it there (F41, already a stated precondition of the encode theorems) *)
+From PV.Model Require Rich Checked.
+From PV.gen Require Leaf.
+From PV.Proofs Require LeafRich.
+Theorem C16_leaf_record_decode : forall key v0 v1, Leaf.L_rich_structure_RichRecord_decode_dom key v0 v1 = true ->
+  Leaf.L_rich_structure_RichRecord_decode_ok key v0 v1 = true /\
+  Leaf.L_rich_structure_RichRecord_decode key v0 v1 =
+    (Rich.r_build (Rich.rdecode key v0 v1), Rich.r_product (Rich.rdecode key v0 v1), Rich.r_count (Rich.rdecode key v0 v1)).
+Proof. exact LeafRich.decode_agrees. Qed.
+Print Assumptions C16_leaf_record_decode.
+Theorem C16_leaf_record_encode : forall b p c key, Leaf.L_rich_structure_RichRecord_encode_dom b p c key = true ->
+  Leaf.L_rich_structure_RichRecord_encode_ok b p c key = true /\
+  Leaf.L_rich_structure_RichRecord_encode b p c key =
+    Rich.rencode {| Rich.r_build := b; Rich.r_product := p; Rich.r_count := c |} key.
+Proof. exact LeafRich.encode_agrees. Qed.
+Print Assumptions C16_leaf_record_encode.
+Theorem C16_leaf_checksum_record_step : forall csum b p c, Leaf.L_rich_structure_checksum__record_step_dom csum b p c = true ->
+  Leaf.L_rich_structure_checksum__record_step_ok csum b p c = true /\
+  Leaf.L_rich_structure_checksum__record_step csum b p c =
+    Rich.rec_step csum {| Rich.r_build := b; Rich.r_product := p; Rich.r_count := c |}.
+Proof. exact LeafRich.record_step_agrees. Qed.
+Print Assumptions C16_leaf_checksum_record_step.
+Theorem C16_leaf_encode_total_len : forall n key, Leaf.L_rich_structure_encode__total_len_dom n key = true ->
+  (ts <- Checked.total_size_chk key n ;; Ok (ts / 4)) =
+    if Leaf.L_rich_structure_encode__total_len_ok n key then Ok (Leaf.L_rich_structure_encode__total_len n key) else Fault POverflow.
+Proof. exact LeafRich.total_len_agrees. Qed.
+Print Assumptions C16_leaf_encode_total_len.
+Theorem C16_leaf_encode_total_len_u32 : forall n key, (n + 2) * 8 + 32 < W32 ->
+  Leaf.L_rich_structure_encode__total_len n key = ((((key / 32) mod 3 + n) * 8 + 32) mod W32) / 4.
+Proof. exact LeafRich.total_len_rich_model. Qed.
+Print Assumptions C16_leaf_encode_total_len_u32.
+Theorem C16_leaf_encode_total_len_u32_differs :
+  Leaf.L_rich_structure_encode__total_len_ok 536870906 64 = true /\
+  Leaf.L_rich_structure_encode__total_len 536870906 64 = 1073741824 /\
+  ((((64 / 32) mod 3 + 536870906) * 8 + 32) mod W32) / 4 = 0.
+Proof. exact LeafRich.total_len_rich_model_differs. Qed.
+Print Assumptions C16_leaf_encode_total_len_u32_differs.
